@@ -314,6 +314,7 @@ func checkC18(c *Ctx) {
 	// ---- no narrowing of fed keys (K3) — shared with C02
 	checkNoNarrowing(c, "C18.no-narrowing")
 	checkC18StopRecord(c)
+	checkRound8C18(c)
 	checkKeyCodeTables(c, "C18.key-code-tables")
 	checkPopOrder(c, "C18.pop-order")
 	checkPrefixBoundPop(c, "C18.pushed-back-argument")
